@@ -190,6 +190,7 @@ func TestC12(t *testing.T) { rapid.Check(t, propC12) }
 
 func propC12(t *rapid.T) {
 	c := genC12(t)
+	c.Env = genEnv(t)
 	classes, nt := c12Classify(c)
 	c12Rec.Eval(classes...)
 	if nt {
